@@ -122,6 +122,7 @@ def C02(prog: Program, run: Run, tier: str) -> None:
     run.add(_only(rounding.rule_round(prog, {"geobox", "gcp", "geom"}), "geobox:GeoBoxBase.compute", "geobox:GeoBox.", "geobox:scaled_down", "geobox:_round", "gcp:", "geom:BoundingBox.round"), ROUND_DESC)
     run.add(_only(rounding.rule_clamps(prog), "geobox:GeoBoxBase.compute_zoom_out"), None)
     run.add(_fwd(prog, {"geobox", "gcp"}), FWD_DESC)
+    run.add(extra.base_world_affine_use(prog), "R-SIBLING every use of self._affine as a pixel->world mapping in the shared base class is overridden in the non-linear subclass or guarded by self.linear")
     run.add(extra.gcp_view_state(prog), "R-SIBLING every GCPGeoBox member whose GeoBox sibling is computed from the affine reads the view affine too")
     run.floor("R-AXIS|", 150)
     run.floor("R-CORNERS|", 7)
@@ -331,7 +332,8 @@ GENERIC_DESC = (
     "R-FALLBACK a fallback_* parameter never conditions the computation it stands in for; "
     "R-TOL math.isclose never receives a caller's absolute tolerance with the default relative one; "
     "R-SIGNMAG max()/min() over resolution components only after abs(); "
-    "R-ZERODIV an optional integer parameter used as divisor/alignment is excluded from being 0, not only from being None"
+    "R-ZERODIV an optional integer parameter used as divisor/alignment is excluded from being 0, not only from being None; "
+    "R-DENSIFY a region projected with to_crs in order to cover it asks for densification (or was densified already)"
 )
 
 
@@ -359,7 +361,7 @@ def _with_generic(pid, fn):
     def wrapped(prog: Program, run: Run, tier: str) -> None:
         fn(prog, run, tier)
         mods = {m for m in ANCHORED.get(pid, set()) if m in prog.modules}
-        run.add(generic.rule_dup(prog, mods) + generic.rule_truthy(prog, mods) + generic.rule_abseps(prog, mods) + generic.rule_localmemo(prog, mods) + generic.rule_remainder_owner(prog, mods) + generic.rule_fallback(prog, mods) + generic.rule_isclose(prog, mods) + generic.rule_signed_magnitude(prog, mods) + generic.rule_zerodiv(prog, mods), GENERIC_DESC)
+        run.add(generic.rule_dup(prog, mods) + generic.rule_truthy(prog, mods) + generic.rule_abseps(prog, mods) + generic.rule_localmemo(prog, mods) + generic.rule_remainder_owner(prog, mods) + generic.rule_fallback(prog, mods) + generic.rule_isclose(prog, mods) + generic.rule_signed_magnitude(prog, mods) + generic.rule_zerodiv(prog, mods) + generic.rule_densify(prog, mods), GENERIC_DESC)
 
     wrapped.__name__ = pid
     wrapped.__doc__ = fn.__doc__
